@@ -130,24 +130,31 @@ def core_engine(tier, d):
     models, md = memo("model-" + tier, spec_key(f"-{seed()}"), lambda dd: core_models(tier, dd))
     tlc_runs = models["tlc"]
     beh_files = [tuple(x) for x in models["beh_files"]]
-    binary = build_harness("debug")
     replays = {}
     samples = []
-    for name, f in beh_files:
-        shards = 8 if tier == "quick" else 14
-        res = replay_and_judge(binary, f, d, name, shards=shards)
-        replays[name] = res
-        with open(f) as fh:
-            for i, line in enumerate(fh):
-                if i in (5, 400, 2500) and len(samples) < 6:
-                    samples.append(json.loads(line).get("ops"))
-        # traces are large; keep only those that contain a violation
-        keep = {v["trace"] for v in res["viol"]}
-        for i in range(shards):
-            tr = os.path.join(d, f"{name}.{i}.trace.ndjson")
-            if tr not in keep and os.path.exists(tr):
-                os.remove(tr)
-    return {"tier": tier, "tlc": tlc_runs, "replays": replays, "beh_files": dict(beh_files), "samples": samples,
+    bf = {}
+    # debug build: overflow checks and debug assertions of the crate are on; release build: what
+    # users run (a debug_assert that masks a defect in debug builds is not there)
+    for profile in ("debug", "release"):
+        binary = build_harness(profile)
+        for name, f in beh_files:
+            shards = 8 if tier == "quick" else 14
+            src = f"{name}:{profile}"
+            res = replay_and_judge(binary, f, d, f"{name}.{profile}", shards=shards)
+            replays[src] = res
+            bf[src] = f
+            if profile == "debug":
+                with open(f) as fh:
+                    for i, line in enumerate(fh):
+                        if i in (5, 400, 2500) and len(samples) < 6:
+                            samples.append(json.loads(line).get("ops"))
+            # traces are large; keep only those that contain a violation
+            keep = {v["trace"] for v in res["viol"]}
+            for i in range(shards):
+                tr = os.path.join(d, f"{name}.{profile}.{i}.trace.ndjson")
+                if tr not in keep and os.path.exists(tr):
+                    os.remove(tr)
+    return {"tier": tier, "tlc": tlc_runs, "replays": replays, "beh_files": bf, "samples": samples,
             "models_memoised": models.get("memoised", False), "wall_s": round(time.time() - t0, 1)}
 
 
@@ -194,9 +201,10 @@ def report_violations(prop, viols, res, findings):
         beh = None
         if v.get("source") in res.get("beh_files", {}):
             beh = behaviour_at(res["beh_files"][v["source"]], v["beh"])
-        path = os.path.join(WORK, "replays", f"{prop}_{v.get('source', 'x')}_{v['beh']}_{v['rule']}.json")
+        path = os.path.join(WORK, "replays", f"{prop}_{v.get('source', 'x').replace(':', '-')}_{v['beh']}_{v['rule']}.json")
         json.dump({"property": prop, "rule": f"{v['prop']}.{v['rule']}", "object": v["obj"], "trace_line": v["line"],
                    "engine": v.get("engine", "core"), "source": v.get("source"), "behaviour": beh,
+                   "profile": (v.get("source") or ":debug").split(":")[-1],
                    "extra": v.get("extra")}, open(path, "w"), indent=1)
         print(f"VIOLATION property={prop} replay={path}")
     return new
@@ -227,7 +235,7 @@ def check_core(prop, tier):
     if prop == "C11":
         # "after the unwind is caught the arena continues to satisfy C01-C05": the same rules, on
         # the executions that contain injected faults
-        viols += [v for v in m["viol"] if v["prop"] in ("C01", "C02", "C03", "C04", "C05") and v["source"] == "n2_faults"]
+        viols += [v for v in m["viol"] if v["prop"] in ("C01", "C02", "C03", "C04", "C05") and v["source"].startswith("n2_faults")]
     tool = [v for v in m["viol"] if v["prop"] == "TOOL"]
     if tool:
         raise ToolError(f"monitor could not interpret the trace: {tool[:2]}")
@@ -303,7 +311,7 @@ def replay_file(path):
     beh = os.path.join(d, "beh.ndjson")
     with open(beh, "w") as f:
         f.write(json.dumps(rec["behaviour"]) + "\n")
-    binary = build_harness("debug")
+    binary = build_harness(rec.get("profile", "debug"))
     res = replay_and_judge(binary, beh, d, "one", shards=1)
     for v in res["viol"]:
         print(f"rule {v['prop']}.{v['rule']} broken at trace line {v['line']} (object {v['obj']})")
